@@ -53,6 +53,9 @@ func Run(o Options) (code int) {
 			// a panic of the checker is a failed check, never a silent pass
 			fmt.Printf("sfcheck: internal error while checking %s: %v\n%s\n", o.Prop, r, debug.Stack())
 			path := filepath.Join(o.Verif, "evidence", "violations", o.Prop+"-internal.json")
+			if o.NoEvidence { // variant runs on scratch copies leave nothing under the framework's evidence directory
+				path = filepath.Join(os.TempDir(), fmt.Sprintf("sfcheck-violations-%d", os.Getpid()), o.Prop+"-internal.json")
+			}
 			os.MkdirAll(filepath.Dir(path), 0o755)
 			b, _ := json.Marshal(map[string]interface{}{"property": o.Prop, "internal_error": fmt.Sprint(r)})
 			os.WriteFile(path, b, 0o644)
@@ -65,6 +68,9 @@ func Run(o Options) (code int) {
 	if err != nil {
 		fmt.Printf("sfcheck: %v\n", err)
 		path := filepath.Join(o.Verif, "evidence", "violations", o.Prop+"-load.json")
+		if o.NoEvidence {
+			path = filepath.Join(os.TempDir(), fmt.Sprintf("sfcheck-violations-%d", os.Getpid()), o.Prop+"-load.json")
+		}
 		os.MkdirAll(filepath.Dir(path), 0o755)
 		b, _ := json.Marshal(map[string]interface{}{"property": o.Prop, "load_error": err.Error()})
 		os.WriteFile(path, b, 0o644)
